@@ -127,6 +127,9 @@ def describe(V, L, W, caching=None):
         if isinstance(x, (tuple, frozenset, list)):
             tag = shared.setdefault(id(x), len(shared))
             return "%s#%d(%s)" % (type(x).__name__, tag, ",".join(sorted(val(y) for y in x) if isinstance(x, frozenset) else [val(y) for y in x]))
+        if isinstance(x, (str, bytes)) and len(x) > 200:
+            import hashlib
+            return "%s/%d/%s" % (type(x).__name__, len(x), hashlib.sha1(x.encode() if isinstance(x, str) else x).hexdigest()[:12])
         if isinstance(x, dict):
             tag = shared.setdefault(id(x), len(shared))
             return "dict#%d{%s}" % (tag, ",".join("%s:%s" % (val(k), val(y)) for k, y in x.items()))
@@ -184,7 +187,7 @@ class C10(Check):
     ]
 
     def witnesses(self):
-        return [("D10", W.D10), ("D7", W.D7)]
+        return [("D10", W.D10), ("D7", W.D7), ("D7b", W.D7b)]
 
     def build(self, rng, real, big=False):
         """a graph built through the protocol, plus runtime attributes with shared tuples / frozensets"""
@@ -200,6 +203,8 @@ class C10(Check):
                     more.append("attr V%d t same:V%d.ref" % (a, b))
                 if rng.random() < 0.3:
                     more.append("attr V%d lst lst:V%d:V%d" % (c, a, b))
+                if rng.random() < 0.25:
+                    more.append("attr V%d blob big:%d:%s" % (c, rng.choice([300, 65535, 65536, 70000, 200000]), rng.choice("sb")))
                 for l in more:
                     lines.append(l)
                     outs.append(real.step(l))
